@@ -1,3 +1,369 @@
-import NunavutVerif.Model.Namespace
+import NunavutVerif.Lemmas.Namespace
+/-!
+# C11 — types map one-to-one onto files in the output tree; the namespace model is a tree
+
+Property theorems only (definitions: `Model/Namespace.lean`, helper lemmas: `Lemmas/Namespace.lean`).
+
+Quantifiers: every configuration `cfg` (any stropping function `strop`, stropping on or off, any
+extension, namespace-file stem and spelling of the output directory), every finite list `ts` of types
+whose namespaces start with one root component `r` (any depth, gaps, several versions, duplicates), and
+every order `ks` in which the second pass of `build_namespace_tree` may walk its `set` of namespace
+names (`hks`: the same members as the index; `buildTree` itself is the instance `ks = index`).
+
+Hypotheses that are *not* about the tree:
+* `NamesOk cfg t` — the stropped namespace components and the stropped `Short_M_m` of `t` are
+  identifier-shaped (non-empty, no `/`, no `.`) and the extension is a valid `with_suffix` argument.
+  This is what `filter_id` guarantees (C09) and what the DSDL grammar guarantees when stropping is off.
+  Without it pathlib splits, drops or re-roots segments; the model has those branches (`pjoin`,
+  `withSuffix`), the formula theorems do not cover them.
+* injectivity of the stropping function on the names involved — the documented exclusion of the
+  property ("names folded onto one identifier by the one-way stropping"); only `C11_distinct_types_distinct_files`
+  needs it.  Since the `fix:` commit for `Namespace.__eq__` the *tree* theorems need no such hypothesis.
+-/
 namespace NunavutVerif.Namespace
+
+/-! ## 1. the path formula -/
+
+/-- T1 (types): `outputPath t = outDir / strop(c₁)/…/strop(cₙ) / (strop(Short_M_m) ++ ext)`.
+What is stropped: each namespace component separately and the *whole* string `Short_M_m`
+(`estrop` = `filter_id(·, "path")` if `enable_stropping` else the identity); the extension is appended
+after stropping; `outDir` is `PurePath(output_dir)`. -/
+theorem C11_type_path_formula (cfg : Cfg) (t : Ty) (h : NamesOk cfg t) :
+    outputPath cfg t =
+      .ok (basePath cfg ++ (t.ns.map (estrop cfg) ++ [estrop cfg (shortVer t) ++ cfg.ext])) :=
+  outputPath_formula cfg t h
+
+/-- T1 (namespace files): `outDir / strop(c₁)/…/strop(cₙ) / (stem ++ ext)`; here the components are
+stropped always, whatever `enable_stropping` says (`Namespace.__init__`). -/
+theorem C11_namespace_path_formula (cfg : Cfg) (k : Key) (hk : ∀ c ∈ k, IdSeg (cfg.strop c))
+    (hstem : IdSeg cfg.stem) (hext : ValidExt cfg.ext) :
+    nsOutputPath cfg k = .ok (basePath cfg ++ k.map cfg.strop ++ [cfg.stem ++ cfg.ext]) :=
+  nsOutputPath_formula cfg k hk hstem hext
+
+/-- Type files and namespace files live in the same folder when `make_path` and `Namespace.__init__`
+strop alike (stropping enabled, or a language whose `filter_id` is the identity). -/
+theorem C11_type_in_its_namespace_folder (cfg : Cfg) (t : Ty) (h : NamesOk cfg t)
+    (hsame : ∀ c ∈ t.ns, estrop cfg c = cfg.strop c) (hstem : IdSeg cfg.stem) :
+    ∃ folder, outputPath cfg t = .ok (folder ++ [estrop cfg (shortVer t) ++ cfg.ext]) ∧
+      nsOutputPath cfg t.ns = .ok (folder ++ [cfg.stem ++ cfg.ext]) := by
+  refine ⟨basePath cfg ++ t.ns.map cfg.strop, ?_, ?_⟩
+  · rw [outputPath_formula cfg t h, List.map_congr_left hsame, List.append_assoc]
+  · exact nsOutputPath_formula cfg t.ns (fun c hc => hsame c hc ▸ h.comps c hc) hstem h.ext
+
+/-! ## 2. injectivity -/
+
+/-- `Short ++ "_" ++ str(M) ++ "_" ++ str(m)` decomposes uniquely (the short name may itself contain
+underscores and digits). -/
+theorem C11_short_version_decomposes (t u : Ty) (h : shortVer t = shortVer u) :
+    t.short = u.short ∧ t.major = u.major ∧ t.minor = u.minor :=
+  shortVer_inj h
+
+/-- T2: two types that differ in namespace, short name or version get different files, provided the
+stropping function does not fold the names involved (each namespace component, and `Short_M_m`). -/
+theorem C11_distinct_types_distinct_files (cfg : Cfg) (t u : Ty) (ht : NamesOk cfg t) (hu : NamesOk cfg u)
+    (hcomps : ∀ a ∈ t.ns, ∀ b ∈ u.ns, estrop cfg a = estrop cfg b → a = b)
+    (hname : estrop cfg (shortVer t) = estrop cfg (shortVer u) → shortVer t = shortVer u)
+    (h : outputPath cfg t = outputPath cfg u) : t = u := by
+  rw [outputPath_formula cfg t ht, outputPath_formula cfg u hu] at h
+  have h1 := List.append_cancel_left (Except.ok.inj h)
+  obtain ⟨h2, h3⟩ := List.append_inj' h1 rfl
+  have h4 : estrop cfg (shortVer t) = estrop cfg (shortVer u) :=
+    List.append_cancel_right (List.cons.inj h3).1
+  obtain ⟨h5, h6, h7⟩ := shortVer_inj (hname h4)
+  have h8 := map_injOn (estrop cfg) t.ns u.ns hcomps h2
+  cases t; cases u; simp_all
+
+/-- The dotted `full_namespace` string identifies the component list (the model keys namespaces by the
+list): joining dot-free components with `.` is injective. -/
+theorem C11_dotted_name_identifies_components (xs ys : List Str) (hx : xs ≠ []) (hy : ys ≠ [])
+    (hxs : ∀ x ∈ xs, '.' ∉ x) (hys : ∀ y ∈ ys, '.' ∉ y)
+    (h : joinWith ['.'] xs = joinWith ['.'] ys) : xs = ys :=
+  joinDot_inj xs ys hx hy hxs hys h
+
+/-! ## 3. containment -/
+
+/-- T3: no type file leaves the output directory: the path is `outDir` followed by at least one part,
+and no part is empty, contains `/` or is `..`. -/
+theorem C11_type_path_inside_outdir (cfg : Cfg) (t : Ty) (h : NamesOk cfg t) :
+    ∃ p, outputPath cfg t = .ok p ∧ Inside (basePath cfg) p := by
+  refine ⟨_, outputPath_formula cfg t h, _, rfl, by simp, ?_⟩
+  intro s hs
+  rcases List.mem_append.1 hs with hs | hs
+  · obtain ⟨c, hc, rfl⟩ := List.mem_map.1 hs
+    exact idseg_safe (h.comps c hc)
+  · rw [List.mem_singleton.1 hs]; exact file_safe h.name h.ext
+
+/-- T3 for namespace files. -/
+theorem C11_namespace_path_inside_outdir (cfg : Cfg) (k : Key) (hk : ∀ c ∈ k, IdSeg (cfg.strop c))
+    (hstem : IdSeg cfg.stem) (hext : ValidExt cfg.ext) :
+    ∃ p, nsOutputPath cfg k = .ok p ∧ Inside (basePath cfg) p := by
+  refine ⟨_, nsOutputPath_formula cfg k hk hstem hext, k.map cfg.strop ++ [cfg.stem ++ cfg.ext],
+    by simp, by simp, ?_⟩
+  intro s hs
+  rcases List.mem_append.1 hs with hs | hs
+  · obtain ⟨c, hc, rfl⟩ := List.mem_map.1 hs
+    exact idseg_safe (hk c hc)
+  · rw [List.mem_singleton.1 hs]; exact file_safe hstem hext
+
+/-- With identifier-shaped names no `ValueError` leaves `build_namespace_tree`. -/
+theorem C11_build_raises_nothing (cfg : Cfg) (ts : List Ty) (r : Str) (ks : List Key)
+    (hne : ts ≠ []) (hroot : OneRoot r ts) (hks : ∀ k, k ∈ ks ↔ k ∈ (loop1 cfg ts).idx)
+    (hnames : ∀ t ∈ ts, NamesOk cfg t) (hcomps : ∀ t ∈ ts, ∀ c ∈ t.ns, IdSeg (cfg.strop c))
+    (hstem : IdSeg cfg.stem) : buildOk cfg (buildWith cfg ts ks) = true := by
+  have b := built_buildWith cfg ts r ks hne hroot hks
+  obtain ⟨t0, ht0⟩ := List.exists_mem_of_ne_nil ts hne
+  have hst := buildWith_store cfg ts r ks hne hroot hks
+  unfold buildOk
+  rw [List.all_eq_true]
+  intro k hk
+  have hkns := (b.keys k).1 (hasKey_of_mem_keysOf _ _ hk)
+  simp only [Bool.and_eq_true, List.all_eq_true]
+  refine ⟨?_, ?_⟩
+  · rw [hst, pathOf_built]
+    have hkc : ∀ c ∈ k, IdSeg (cfg.strop c) := by
+      intro c hc
+      obtain ⟨_, n, hn, hp⟩ := hkns
+      obtain ⟨t, ht, rfl⟩ := List.mem_map.1 hn
+      exact hcomps t ht c (hp.subset hc)
+    rw [nsOutputPath_formula cfg k hkc hstem (hnames t0 ht0).ext]; rfl
+  · intro e he
+    obtain ⟨h1, _, h3⟩ := (b.types k e).1 he
+    rw [h3, outputPath_formula cfg e.1 (hnames e.1 h1)]; rfl
+
+/-! ## 4. the namespace model is the prefix tree of the types' namespaces -/
+
+section Tree
+variable (cfg : Cfg) (ts : List Ty) (r : Str) (ks : List Key)
+variable (hne : ts ≠ []) (hroot : OneRoot r ts) (hks : ∀ k, k ∈ ks ↔ k ∈ (loop1 cfg ts).idx)
+include hne hroot hks
+
+/-- T4a: `get_all_namespaces` yields exactly the non-empty prefixes of the types' namespaces — every
+namespace between the root and a type, empty intermediate ones included — each exactly once. -/
+theorem C11_namespaces_exactly_once :
+    (allNamespaces (buildWith cfg ts ks)).Nodup ∧
+    ∀ k, k ∈ allNamespaces (buildWith cfg ts ks) ↔ IsNs (nsOf ts) k := by
+  have b := built_buildWith cfg ts r ks hne hroot hks
+  have hspec := nsGen_spec (nsOf ts) _ b.shape (depthFuel (buildWith cfg ts ks).store [r]) [r] b.rootNs
+    (by unfold depthFuel; have := b.shape.bound [r] b.rootNs; simp at this ⊢)
+  unfold allNamespaces
+  rw [b.root]
+  refine ⟨hspec.1, fun k => ?_⟩
+  rw [hspec.2]
+  exact ⟨fun h => h.1, fun h => ⟨h, root_prefix_of_isNs hroot h⟩⟩
+
+/-- T4b: `get_all_datatypes` yields every type of the input exactly once (and nothing else), each with
+the path of §1. -/
+theorem C11_types_exactly_once :
+    ((allDatatypes (buildWith cfg ts ks)).map (·.1)).Nodup ∧
+    ∀ e, e ∈ allDatatypes (buildWith cfg ts ks) ↔ (e.1 ∈ ts ∧ e.2 = outputPath cfg e.1) := by
+  have b := built_buildWith cfg ts r ks hne hroot hks
+  obtain ⟨hnd, hmem⟩ := C11_namespaces_exactly_once cfg ts r ks hne hroot hks
+  unfold allDatatypes
+  unfold allNamespaces at hnd hmem
+  rw [typeGen_eq]
+  refine ⟨?_, fun e => ?_⟩
+  · rw [List.map_flatMap]
+    unfold List.Nodup
+    rw [List.pairwise_flatMap]
+    refine ⟨fun k _ => b.typesNodup k, ?_⟩
+    refine List.Pairwise.imp_of_mem ?_ hnd
+    intro a c _ _ hac x hx y hy hxy
+    subst hxy
+    obtain ⟨e1, he1, rfl⟩ := List.mem_map.1 hx
+    obtain ⟨e2, he2, h2⟩ := List.mem_map.1 hy
+    apply hac
+    rw [← ((b.types a e1).1 he1).2.1, ← ((b.types c e2).1 he2).2.1, h2]
+  · rw [List.mem_flatMap]
+    constructor
+    · rintro ⟨k, _, he⟩
+      have := (b.types k e).1 he
+      exact ⟨this.1, this.2.2⟩
+    · rintro ⟨h1, h2⟩
+      exact ⟨e.1.ns, (hmem _).2 (isNs_ns hroot h1), (b.types _ e).2 ⟨h1, rfl, h2⟩⟩
+
+/-- T4b for a duplicate-free input: the yielded types are a permutation of the input. -/
+theorem C11_types_are_a_permutation (hnd : ts.Nodup) :
+    ((allDatatypes (buildWith cfg ts ks)).map (·.1)).Perm ts := by
+  obtain ⟨h1, h2⟩ := C11_types_exactly_once cfg ts r ks hne hroot hks
+  rw [List.perm_ext_iff_of_nodup h1 hnd]
+  intro t
+  constructor
+  · intro h
+    obtain ⟨e, he, rfl⟩ := List.mem_map.1 h
+    exact ((h2 e).1 he).1
+  · intro h
+    exact List.mem_map.2 ⟨(t, outputPath cfg t), (h2 _).2 ⟨h, rfl⟩, rfl⟩
+
+omit hne hroot hks in
+/-- T4c: `get_all_types` is the namespace traversal with every namespace followed by its own types. -/
+theorem C11_all_types_is_namespaces_with_their_types :
+    allTypes (buildWith cfg ts ks) =
+      (allNamespaces (buildWith cfg ts ks)).flatMap (itemsOf (buildWith cfg ts ks).store) := by
+  unfold allTypes allNamespaces; exact allGen_eq _ _ _
+
+/-- T4d: parent/child links.  The root is `[r]` and has no parent; every other namespace `k` has the
+parent `k` minus its last component, which is itself a namespace of the tree and lists `k` among its
+nested namespaces; nested namespaces are exactly the one-component extensions, without repetition;
+walking up the parent links from any namespace ends at the root. -/
+theorem C11_parent_child_links :
+    (buildWith cfg ts ks).root = [r] ∧
+    parentOf (buildWith cfg ts ks).store [r] = none ∧
+    (∀ k, IsNs (nsOf ts) k → k ≠ [r] →
+      parentOf (buildWith cfg ts ks).store k = some k.dropLast ∧ IsNs (nsOf ts) k.dropLast ∧
+      k ∈ nestedOf (buildWith cfg ts ks).store k.dropLast) ∧
+    (∀ k c, c ∈ nestedOf (buildWith cfg ts ks).store k ↔ IsNs (nsOf ts) c ∧ c.dropLast = k ∧ k ≠ []) ∧
+    (∀ k, (nestedOf (buildWith cfg ts ks).store k).Nodup) ∧
+    (∀ k, IsNs (nsOf ts) k → climb (buildWith cfg ts ks).store k.length k = [r]) := by
+  have b := built_buildWith cfg ts r ks hne hroot hks
+  refine ⟨b.root, b.parentNone [r] rfl, ?_, b.shape.nested, b.shape.nestedNodup, ?_⟩
+  · intro k hk hkr
+    have hd : k.dropLast ≠ [] := by
+      intro e
+      apply hkr
+      have h1 := take_one_of_isNs hroot hk
+      have : k.length ≤ 1 := by have := congrArg List.length e; simp at this; omega
+      rw [← h1, List.take_of_length_le this]
+    exact ⟨b.parentSome k hk hd, isNs_dropLast hk hd, (b.shape.nested _ _).2 ⟨hk, rfl, hd⟩⟩
+  · intro k hk
+    rw [climb_spec (nsOf ts) _ b.parentSome b.parentNone _ _ hk (by omega), take_one_of_isNs hroot hk]
+
+/-- T4e: `find_output_path_for_type` started at *any* namespace of the tree finds every type of the
+tree and returns its output path; for a type that is not in the tree it raises `KeyError` (the model's
+fuel is never exhausted). -/
+theorem C11_lookup_total (start : Key) (hstart : IsNs (nsOf ts) start) (t : Ty) :
+    (t ∈ ts → findPath (buildWith cfg ts ks).store start t = .hit (outputPath cfg t)) ∧
+    (t ∉ ts → findPath (buildWith cfg ts ks).store start t = .keyError) := by
+  have b := built_buildWith cfg ts r ks hne hroot hks
+  have hty : TypesOk cfg ts (buildWith cfg ts ks).store := ⟨b.types⟩
+  have hclimb : climb (buildWith cfg ts ks).store start.length start = [r] := by
+    rw [climb_spec (nsOf ts) _ b.parentSome b.parentNone _ _ hstart (by omega), take_one_of_isNs hroot hstart]
+  have hq : ∀ k ∈ [[r]], IsNs (nsOf ts) k := by intro k hk; simp at hk; subst hk; exact b.rootNs
+  have hsz : qsize (buildWith cfg ts ks).store [[r]] =
+      (nsGen (buildWith cfg ts ks).store (depthFuel (buildWith cfg ts ks).store [r]) [r]).length := by
+    simp [qsize, sz]
+  constructor
+  · intro ht
+    unfold findPath findPathBy
+    cases hl : lookupTy (typesOf (buildWith cfg ts ks).store start) t with
+    | some p => simp only; rw [((lookup_own cfg ts _ hty t start).2 p hl).1]
+    | none =>
+      simp only [hclimb]
+      apply bfs_hit cfg ts (nsOf ts) _ b.shape hty t ht (isNs_ns hroot ht) start
+      · intro e
+        rw [(lookup_own cfg ts _ hty t start).1 ⟨ht, e⟩] at hl
+        exact absurd hl (by simp)
+      · exact hq
+      · rw [hsz]; omega
+      · exact ⟨[r], by simp, root_prefix_of_isNs hroot (isNs_ns hroot ht)⟩
+  · intro ht
+    unfold findPath findPathBy
+    have hl : lookupTy (typesOf (buildWith cfg ts ks).store start) t = none := by
+      apply lookupTy_none
+      intro e he h
+      exact ht (h ▸ ((b.types start e).1 he).1)
+    simp only [hl, hclimb]
+    apply bfs_miss cfg ts (nsOf ts) _ b.shape hty t ht start _ _ hq
+    rw [hsz]; omega
+
+/-! ## 5. include paths -/
+
+/-- T5b: `filter_type_to_include_path` of a type of the tree (lookup, then `relative_to` the parent of
+the root namespace's folder) is the include path `make_path` gives. -/
+theorem C11_type_to_include_path (t : Ty) (ht : t ∈ ts) (h : NamesOk cfg t) (hr : IdSeg (cfg.strop r)) :
+    typeToIncludePath cfg (buildWith cfg ts ks) t = includePath cfg t := by
+  have b := built_buildWith cfg ts r ks hne hroot hks
+  unfold typeToIncludePath
+  rw [b.root, (C11_lookup_total cfg ts r ks hne hroot hks [r] b.rootNs t).1 ht,
+    outputPath_formula cfg t h]
+  simp only
+  have hf : nsFolder cfg [r] = basePath cfg ++ [cfg.strop r] := by
+    unfold nsFolder
+    rw [List.map_cons, List.map_nil, ofSegs_idsegs [cfg.strop r] (by simpa using hr), pathJoin_rel]
+    simp only [List.head?_cons]
+    exact fun e => idseg_ne_root hr (Option.some.inj e)
+  have hp : parentPath (basePath cfg ++ [cfg.strop r]) = basePath cfg := by
+    unfold parentPath
+    have : basePath cfg ++ [cfg.strop r] ≠ [rootPart] := by
+      intro e
+      cases hb : basePath cfg with
+      | nil => rw [hb] at e; simp at e; exact idseg_ne_root hr e
+      | cons x y => rw [hb] at e; simp at e
+    simp [this]
+  rw [hf, hp, relativeTo_append _ _ (rel_head_ne_root cfg t h)]
+  unfold includePath
+  rw [makePath_formula cfg t h]
+
+end Tree
+
+/-- T5a: the include path emitted for a referenced type is its output path relative to the output
+directory — both are `make_path`.  Nothing about the tree or the root namespace enters: the statement
+holds whether `dt` is generated in this run or merely referenced from another root namespace. -/
+theorem C11_include_path_is_relative_output_path (cfg : Cfg) (dt : Ty) (h : NamesOk cfg dt) :
+    ∃ rel, includePath cfg dt = .ok rel ∧ outputPath cfg dt = .ok (basePath cfg ++ rel) ∧
+      relativeTo (basePath cfg ++ rel) (basePath cfg) = .ok rel :=
+  ⟨_, makePath_formula cfg dt h, outputPath_formula cfg dt h,
+    relativeTo_append _ _ (rel_head_ne_root cfg dt h)⟩
+
+/-- The same type gets the same path in the tree of its own root namespace as the include path a
+type of another root emits for it (any two type lists, any two walk orders, one configuration). -/
+theorem C11_generated_and_referenced_agree (cfg : Cfg) (ts : List Ty) (r : Str) (ks : List Key)
+    (hne : ts ≠ []) (hroot : OneRoot r ts) (hks : ∀ k, k ∈ ks ↔ k ∈ (loop1 cfg ts).idx)
+    (dt : Ty) (hdt : dt ∈ ts) (h : NamesOk cfg dt) (start : Key) (hstart : IsNs (nsOf ts) start) :
+    ∃ rel, includePath cfg dt = .ok rel ∧
+      findPath (buildWith cfg ts ks).store start dt = .hit (.ok (basePath cfg ++ rel)) := by
+  obtain ⟨rel, h1, h2, _⟩ := C11_include_path_is_relative_output_path cfg dt h
+  exact ⟨rel, h1, by rw [(C11_lookup_total cfg ts r ks hne hroot hks start hstart dt).1 hdt, h2]⟩
+
+/-- `build_namespace_tree` itself (second pass in index order) is an instance of `buildWith`. -/
+theorem C11_buildTree_is_instance (cfg : Cfg) (ts : List Ty) :
+    buildTree cfg ts = buildWith cfg ts (loop1 cfg ts).idx ∧
+    ∀ k, k ∈ (loop1 cfg ts).idx ↔ IsNs (nsOf ts) k :=
+  ⟨rfl, (inv1_loop1 cfg ts).idx⟩
+
+/-! ## Non-vacuity and regression witnesses -/
+
+section Examples
+private def s (x : String) : Str := x.toList
+/-- C-like stropping: `register` ↦ `_register`, everything else unchanged. -/
+private def stropC (x : Str) : Str := if x = s "register" then s "_register" else x
+private def cfgC : Cfg := ⟨stropC, true, s ".h", s "_", s "out/"⟩
+private def tA : Ty := ⟨[s "vendor", s "register"], s "A", 1, 0⟩
+private def tB : Ty := ⟨[s "vendor", s "_register"], s "B", 1, 0⟩
+private def tD : Ty := ⟨[s "vendor", s "a", s "b", s "c"], s "Foo_1", 2, 10⟩
+
+/-- The hypotheses of the formula theorems are satisfiable, and the formula gives the familiar path. -/
+example : NamesOk cfgC tD := ⟨by decide, by decide, by decide⟩
+example : outputPath cfgC tD = .ok [s "out", s "vendor", s "a", s "b", s "c", s "Foo_1_2_10.h"] := by decide
+example : OneRoot (s "vendor") [tA, tD] := by unfold OneRoot; decide
+/-- A tree with a gap (`vendor.a`, `vendor.a.b` hold no types) yields all five namespaces. -/
+example : allNamespaces (buildTree cfgC [tA, tD]) =
+    [[s "vendor"], [s "vendor", s "register"], [s "vendor", s "a"], [s "vendor", s "a", s "b"],
+     [s "vendor", s "a", s "b", s "c"]] := by decide
+example : findPath (buildTree cfgC [tA, tD]).store [s "vendor", s "register"] tD
+    = .hit (outputPath cfgC tD) := by decide
+
+/-- Regression witness of the repaired defect: with `Namespace.__eq__` on the *stropped* name the
+sibling namespaces `register` and `_register` were one set element, `_register` was never linked
+and its type `B` was not yielded (not generated) … -/
+example : ((allDatatypes (buildWithBeforeFix cfgC [tA, tB] (loop1 cfgC [tA, tB]).idx)).map (·.1)) = [tA] := by
+  decide
+/-- … so "every type exactly once" was false for the old code … -/
+example : ¬ (∀ e, e ∈ allDatatypes (buildWithBeforeFix cfgC [tA, tB] (loop1 cfgC [tA, tB]).idx) ↔
+    (e.1 ∈ [tA, tB] ∧ e.2 = outputPath cfgC e.1)) := by
+  intro h
+  have := (h (tB, outputPath cfgC tB)).2 ⟨by decide, rfl⟩
+  revert this; decide
+/-- … while the repaired code yields both (they share the folder `_register`, the documented folding). -/
+example : ((allDatatypes (buildTree cfgC [tA, tB])).map (·.1)) = [tA, tB] := by decide
+example : outputPath cfgC tA = .ok [s "out", s "vendor", s "_register", s "A_1_0.h"] ∧
+    outputPath cfgC tB = .ok [s "out", s "vendor", s "_register", s "B_1_0.h"] := by decide
+
+/-- `make_path` strops only if `enable_stropping`, `Namespace.__init__` always: with stropping switched
+off for a language whose `filter_id` is not the identity the namespace file leaves its types' folder
+(outside C11's quantifier — the shipped configurations never combine the two; recorded as observed). -/
+example : outputPath { cfgC with enable := false } tA = .ok [s "out", s "vendor", s "register", s "A_1_0.h"] ∧
+    nsOutputPath { cfgC with enable := false } tA.ns = .ok [s "out", s "vendor", s "_register", s "_.h"] := by
+  decide
+end Examples
+
 end NunavutVerif.Namespace
